@@ -104,11 +104,10 @@ SPEC = {
     "lean_modules": ["RsslVerif.Thm.C10"],
     "theorems": [T + n for n in [
         "token_progress", "token_error_in_input", "token_no_panic", "spans_tile", "reemit_reproduces_input",
-        "error_pos_in_range", "tokens_before_error_tile", "lexing_terminates", "read_panics_only_static_rest",
-        "release_build_never_panics", "debug_build_panics_on_unterminated_comment",
-        "int_value_exact", "int_value_exact_partial", "int_overflow_rejected", "literalInt_radix",
-        "int_value_exact_fails_for_suffix_l", "token_numeric_dispatch", "lex_float_nearest", "nearest64_unfold", "nearest_correct_partial",
-        "nearest_exact_on_representable"]],
+        "error_pos_in_range", "tokens_before_error_tile", "lexing_terminates", "read_never_panics",
+        "literalIntWith_closed", "int_value_exact", "int_overflow_rejected", "int_rejected_only_when_too_large",
+        "literalInt_radix", "token_numeric_dispatch", "lex_float_nearest", "nearest64_unfold",
+        "nearest_correct_partial", "nearest_exact_on_representable"]],
     "harness": "c10",
     "nontrivial": nontrivial,
     "finding_key": finding_key,
